@@ -15,6 +15,11 @@ func TestC12(t *testing.T) {
 		c := &Case{}
 		fams := []famWeight{{"K1", 30}, {"K2", 20}, {"K3", 10}, {"K4", 5}, {"K5", 20}, {"K6", 5}, {"K7", 5}, {"Krand", 5}}
 		keys, fam := genKeysFam(t, fams, caps())
+		if pickU(t, "ladder?", 16) == 0 {
+			// a long shared run around the 16-bit step limit, with every node kind after it
+			L := rapid.OneOf(rapid.IntRange(65000, 66100), rapid.IntRange(30000, 131200)).Draw(t, "L")
+			keys, fam = ladderKeys(L, pickU(t, "place", ladderPlacements), 0x70), "ladder"
+		}
 		c.Gen, c.Keys = fam, hexes(keys)
 		if rapid.Bool().Draw(t, "sparse") {
 			c.Block = rapid.IntRange(2, 64).Draw(t, "block")
@@ -138,11 +143,13 @@ func TestC17(t *testing.T) {
 			keys, c.Gen = genK2(t, maxN), "K2"
 		}
 		c.Keys = hexes(keys)
-		switch pickU(t, "history", 4) {
+		switch pickU(t, "history", 5) {
 		case 0:
 			c.Scrib = 1 // option variables shared with an earlier Complete build
 		case 1:
 			c.Scrib = 2 // loaded into an instance that held and serialised a larger index
+		case 2:
+			c.Scrib = 3 // built right after a build that was rejected late
 		}
 		// two non-empty prefixes; keep the result within the documented key length
 		longest := 0
